@@ -562,6 +562,10 @@ def calc_blockdep(
     if ifm_overlaps and ifm2_overlaps:
         # Both IFM and IFM2 overlap (should be rare)
         return 0
+    if ifm_overlaps and npu_op.ifm.tiles.width_0 < npu_op.ifm.shape.width:
+        # Tiles side by side are only used to replicate the edges of the IFM (tile padding). The IFM coordinates of
+        # a job are then not the coordinates of the feature map produced by prev_op, which the analysis below assumes
+        return 0
     if not ifm_overlaps and not ifm2_overlaps:
         # No overlap between prev OFM and IFM/IFM2
         return ArchitectureFeatures.MAX_BLOCKDEP
